@@ -70,6 +70,9 @@ pub enum SOp {
     Batch { d: u32, ms: Vec<StakeMsg> },
     Withdraw { d: u32, v: u32 },
     SetWithdraw { d: u32, to: u32 },
+    /// one all-or-nothing batch: withdraw-address change, a small delegation, then a delegation of more
+    /// than the delegator owns: must fail as a whole and leave no trace (neither in storage nor anywhere else)
+    Poisoned { d: u32, to: u32, v: u32 },
     /// slash by p/1000 (p > 1000 is invalid)
     /// fraction in thousandths; values >= 1_000_000 mean 1 + (p_milli - 1_000_000) * 10^-18
     Slash { v: u32, p_milli: u32 },
@@ -102,6 +105,9 @@ pub struct Case {
     /// validators have plain, mixed-case names (three of them case variants of one name)
     #[serde(default)]
     pub plain_validators: bool,
+    /// the foreign denomination differs from the bonded one only in the case of its letters
+    #[serde(default)]
+    pub lookalike_foreign: bool,
     pub ops: Vec<SOp>,
 }
 
@@ -152,6 +158,7 @@ const P16: &str = "C16";
 pub struct Run {
     pub app: SimApp,
     denom: String,
+    foreign_denom: String,
     addrs: Vec<String>,      // delegators + extra accounts
     validators: Vec<String>, // real validators
     contract0: bool,
@@ -261,7 +268,7 @@ impl Run {
     }
 
     fn to_cosmos(&self, d: usize, m: &StakeMsg) -> (CosmosMsg<SimMsg>, MsgSpec) {
-        let den = |foreign: bool| if foreign { "denom1".to_string() } else { self.denom.clone() };
+        let den = |foreign: bool| if foreign { self.foreign_denom.clone() } else { self.denom.clone() };
         match m {
             StakeMsg::Delegate { v, amt, foreign } => {
                 let a = self.resolve_amt(d, *v, amt);
@@ -703,6 +710,45 @@ impl Run {
         }
     }
 
+    fn op_poisoned(&mut self, d: usize, to: u32, v: u32) {
+        self.accrue();
+        let n = self.m.balances.len();
+        let to = to as usize % n;
+        let nv = self.validators.len();
+        let vi = v as usize % nv;
+        let bal = self.m.balances[d];
+        let before = self.app.storage().snapshot();
+        let small = bal.min(1);
+        let mut msgs: Vec<(CosmosMsg<SimMsg>, MsgSpec)> = vec![(
+            DistributionMsg::SetWithdrawAddress { address: self.addrs[to].clone() }.into(),
+            MsgSpec::SetWithdraw { to: if to == 0 && self.contract0 { Target::Contract(0) } else { Target::Account(to as u32) } },
+        )];
+        if small > 0 {
+            msgs.push((
+                StakingMsg::Delegate { validator: self.validator(vi as u32), amount: coin(small, self.denom.clone()) }.into(),
+                MsgSpec::Delegate { val: vi as u32, coin: CoinSpec { denom: 0, amt: crate::ops::Amt::Abs(small as u64) } },
+            ));
+        }
+        msgs.push((
+            StakingMsg::Delegate { validator: self.validator(vi as u32), amount: coin(bal + 1, self.denom.clone()) }.into(),
+            MsgSpec::Delegate { val: vi as u32, coin: CoinSpec { denom: 0, amt: crate::ops::Amt::Abs((bal + 1) as u64) } },
+        ));
+        let real = self.send(d, msgs);
+        self.stats.steps += 1;
+        self.stats.fault("poisoned_batch");
+        let what = "batch of withdraw-address change, delegation and an unaffordable delegation";
+        match real {
+            RealOut::Panic(p) => self.vall("panic", format!("{}: the simulator panicked: {}", what, p)),
+            RealOut::Ok(()) => self.v(P14, "accepted_but_invalid", format!("{}: accepted although the last delegation exceeds the balance", what)),
+            RealOut::Err(_) => {
+                if self.app.storage().snapshot() != before {
+                    self.v(P14, "rejected_with_effect", format!("{}: rejected but the chain state changed", what));
+                }
+                self.check_state(what);
+            }
+        }
+    }
+
     fn op_slash(&mut self, v: u32, p_milli: u32) {
         self.accrue();
         let what = format!("slash validator {} by {}/1000", v, p_milli);
@@ -934,6 +980,10 @@ impl Run {
                 let d = *d as usize % self.n_delegators();
                 self.op_set_withdraw(d, *to)
             }
+            SOp::Poisoned { d, to, v } => {
+                let d = *d as usize % self.n_delegators();
+                self.op_poisoned(d, *to, *v)
+            }
             SOp::Slash { v, p_milli } => self.op_slash(*v, *p_milli),
             SOp::Advance { jump, set, slices } => self.op_advance(jump, *set, *slices),
         }
@@ -986,7 +1036,13 @@ pub fn build(case: &Case) -> Run {
     names.accounts = addrs.clone();
     names.ghosts = (0..4).map(|i| api.addr_make(&format!("ghost{}", i)).to_string()).collect();
     let denom = DENOMS[case.bonded as usize % DENOMS.len()].to_string();
-    names.denoms = vec![denom.clone(), "denom1".to_string()];
+    let foreign_denom = if case.lookalike_foreign {
+        // "TOKEN" -> "token", "ustake" -> "USTAKE", "atom" -> "ATOM"
+        if denom.chars().any(|c| c.is_ascii_uppercase()) { denom.to_ascii_lowercase() } else { denom.to_ascii_uppercase() }
+    } else {
+        "denom1".to_string()
+    };
+    names.denoms = vec![denom.clone(), foreign_denom.clone()];
     names.validators = validators.clone();
     world.0.borrow_mut().names = names;
     let apr = case.apr.min(10_000);
@@ -997,6 +1053,7 @@ pub fn build(case: &Case) -> Run {
     let vals2 = validators.clone();
     let comm2 = commissions.clone();
     let denom2 = denom.clone();
+    let foreign2 = foreign_denom.clone();
     let maxc2: Vec<u32> = (0..nv).map(|i| case.max_commissions.get(i).copied().unwrap_or(10_000).min(10_000)).collect();
     let mut app: SimApp = BasicAppBuilder::<SimMsg, SimQuery>::new_custom()
         .with_api(api)
@@ -1011,7 +1068,7 @@ pub fn build(case: &Case) -> Run {
         .with_stargate(RecStargate { world: world.clone(), inner: StargateInner::Stub })
         .build(|router, api, storage| {
             for a in addrs2.iter().take(nd) {
-                router.bank.inner.init_balance(storage, &Addr::unchecked(a.clone()), vec![coin(init, denom2.clone()), coin(1000, "denom1")]).unwrap();
+                router.bank.inner.init_balance(storage, &Addr::unchecked(a.clone()), vec![coin(init, denom2.clone()), coin(1000, foreign2.clone())]).unwrap();
             }
             router
                 .staking
@@ -1051,6 +1108,7 @@ pub fn build(case: &Case) -> Run {
     Run {
         app,
         denom,
+        foreign_denom,
         addrs,
         validators,
         contract0,
@@ -1113,6 +1171,7 @@ pub fn execute_case(case: &Case) -> RunResult {
             SOp::Batch { .. } => "b",
             SOp::Withdraw { .. } => "w",
             SOp::SetWithdraw { .. } => "a",
+            SOp::Poisoned { .. } => "p",
             SOp::Slash { v, .. } => ["s0", "s1", "s2", "s3", "s4"][(*v as usize).min(4)],
             SOp::Advance { jump, .. } => match jump {
                 Jump::Secs(_) => "t",
@@ -1190,6 +1249,7 @@ impl Engine for StakeSim {
         match cfg.property.as_str() {
             "C15" => {
                 w[2] = 8;
+                w[3] = 3;
                 w[5] = 12;
             }
             "C16" => w[4] = 7,
@@ -1245,6 +1305,7 @@ impl Engine for StakeSim {
                     SOp::Batch { d, ms: (0..n).map(|_| gen_msg(rng, nv)).collect() }
                 }
                 2 => SOp::Withdraw { d, v: if rng.chance(1, 30) { nv } else { rng.below(nv as u64) as u32 } },
+                3 if rng.chance(1, 3) => SOp::Poisoned { d, to: rng.below(nd as u64 + 2) as u32, v: rng.below(nv as u64) as u32 },
                 3 => SOp::SetWithdraw { d, to: rng.below(nd as u64 + 2) as u32 },
                 4 => {
                     let p = match rng.below(10) {
@@ -1309,6 +1370,7 @@ impl Engine for StakeSim {
             bonded: if rng.chance(1, 3) { 1 + rng.below(2) as u8 } else { 0 },
             decoy: rng.chance(1, 4),
             plain_validators: rng.chance(1, 5),
+            lookalike_foreign: rng.chance(1, 3),
             ops,
         }
     }
